@@ -52,7 +52,14 @@ Notation store := (store V).
 
 (* one row to be written: its storage key, whether it is a new record (rec.isNew; logs: true),
    whether apply2 has to load the stored record first (update of a re-read event), the bytes *)
-Record item := mkItem { it_pk : bytes; it_cc : bytes; it_new : bool; it_load : bool; it_val : V }.
+(* it_kind: what kind of record the row is - 0 log entry, 1 CDoc, 2 singleton CDoc, 3 WDoc,
+   4 singleton WDoc, 5 CRecord, 6 WRecord (nested records under their parent document) *)
+Record item := mkItem { it_pk : bytes; it_cc : bytes; it_kind : N; it_new : bool; it_load : bool; it_val : V }.
+
+(* apply2's `store` closure hands rec.isNew on to putRecordsBatch; the translator extracts for which
+   record kinds (if any) it clears the flag first (Gen/Params.c05_store_put_kinds; now: none) *)
+Definition store_as_update (it : item) : bool := existsb (N.eqb (it_kind it)) c05_store_put_kinds.
+Definition batch_new (it : item) : bool := it_new it && negb (store_as_update it).
 
 (* calls into IAppStorage as the recording wrapper sees them *)
 Inductive call :=
@@ -88,7 +95,7 @@ Fixpoint write_calls (cond : item -> bool) (now : Z) (st : store) (items : list 
   end.
 
 Definition log_cond (code : N) (_ : item) : bool := code =? 1.
-Definition rec_cond (code : N) (it : item) : bool := (code =? 1) && it_new it.
+Definition rec_cond (code : N) (it : item) : bool := (code =? 1) && batch_new it.
 
 (* PutPlog / PutWlog / reapplier.PutWLog *)
 Definition run_log (code : N) (now : Z) (st : store) (it : item) : store * res :=
